@@ -813,12 +813,22 @@ pub fn run(ctx: &mut Ctx) {
     }
     // C
     for i in 0..ctx.budget(40, 300) {
-        check_gc_vs_model(ctx, i % 2 == 1);
+        guarded(ctx, "one collection vs model", |c| check_gc_vs_model(c, i % 2 == 1));
     }
     // D
     for _ in 0..ctx.budget(4, 20) {
-        check_reader_window(ctx);
+        guarded(ctx, "reader window", check_reader_window);
     }
     // E
-    check_after_crash(ctx);
+    guarded(ctx, "recovered crash images", check_after_crash);
+}
+
+/// a scenario whose own `unwrap`s hit an error of the code under test (or a panic of it) is a
+/// witnessed failure of the implementation, not a crash of the harness
+fn guarded(ctx: &mut Ctx, what: &str, f: impl FnOnce(&mut Ctx)) {
+    let r = catch_unwind(AssertUnwindSafe(|| f(ctx)));
+    tantivy::verif::set_segment_cut_docs(0);
+    if r.is_err() {
+        ctx.report.violation("oracle", "C10:scenario-failed", format!("{what}: an index operation that must succeed failed or panicked (add / commit / rollback / merge / open)"), json!({"kind": "scenario", "what": what}));
+    }
 }
